@@ -394,7 +394,8 @@ def bool_effect(ctx, setter, opt, args, guards):
     return None
 
 
-def flow_rule(ctx, fv):
+def flow_rule(ctx, fv, arms=None):
+    """arms: restrict the judgement to these subcommand arms (dependency use by other properties)"""
     actual = {}
     for n in fv.nodes:
         if n.get("k") not in ("call", "mcall"):
@@ -433,6 +434,9 @@ def flow_rule(ctx, fv):
         actual.setdefault(arm, []).append((c, sargs, sorted(gl), n))
     total = 0
     for arm, exp in FLOW.items():
+        if arms is not None and arm not in arms:
+            total += len(exp)
+            continue
         got = actual.get(arm, [])
         for callee, args, guards in exp:
             total += 1
@@ -635,3 +639,12 @@ def closed_list_rule(ctx, fv):
               "cli() calls only the %d listed constructors/setters/run methods (%d call sites)" % (len(ALLOWED), n),
               "cli() calls `%s`, which is outside the closed list of constructors, setters and run methods"
               % (cname(bad[0]) if bad else ""), line_of(bad[0]) if bad else fv.fn["sp"])
+
+
+
+def cli_arm_dep(ctx, prop, arms):
+    """the CLI is an observation point of most properties: the options of the named subcommand arm(s) reach the
+    computation's constructor and setters as documented (re-checked under the depending property's ids)"""
+    fcli = ctx.view(CLI, UNIT)
+    if fcli is not None:
+        flow_rule(dep(ctx, prop, "C15"), fcli, arms=arms)
